@@ -57,8 +57,17 @@ class Abs:
 
 
 def inst_name(rng, i):
-    style = rng.choice(['plain', 'plain', 'plain', 'U', 'bus', 'reg', 'dot'])
-    return {'plain': f'u{i}', 'U': f'U{100 + i}', 'bus': f'u[{i}]', 'reg': f'q_reg[{i}]', 'dot': f'blk.g{i}'}[style]
+    style = rng.choice(['plain', 'plain', 'plain', 'U', 'bus', 'reg', 'dot', 'und', 'und'])
+    return {'plain': f'u{i}', 'U': f'U{100 + i}', 'bus': f'u[{i}]', 'reg': f'q_reg[{i}]', 'dot': f'blk.g{i}', 'und': f'r_{i}_'}[style]
+
+
+def near_miss_names(name):
+    """instance names that are NOT `name` but one normalisation step away from it (bus brackets vs underscores, letter case, a hierarchy
+    prefix more or less, one character more or less): an SDF block under such a name addresses no cell of the circuit"""
+    import re
+    c = [name.replace('[', '_').replace(']', '_'), re.sub(r'_(\d+)_', r'[\1]', name), re.sub(r'_(\d+)_$', r'[\1]', name), name.swapcase(),
+         name + '_', name[:-1], name.split('.')[-1], 'top.' + name, name.replace('.', '/'), name.replace('[', '(').replace(']', ')')]
+    return [x for x in c if x and x != name and '(' not in x and '/' not in x]
 
 
 def gen_abs(rng, n_inst=None, lib=None):
@@ -251,6 +260,19 @@ def gen_sdf(rng, a, edge=False):
         parts = [es[x:y] for x, y in zip([0] + cuts, cuts + [len(es)])]
         repeated |= len(parts) > 1
         inst_blocks.append([(sdf_name(rng, a.insts[i]['name'], style[i]), p) for p in parts])
+    cand = [i for i, es in enumerate(per_inst) if es]
+    if cand and rng.random() < 0.4:
+        # a block for an instance the circuit does not have, one normalisation step away from one it has, with entries that WOULD fit that
+        # cell: nothing of it may reach the arrays (slots keep the value of the real instance's entries or 0)
+        special = [i for i in cand if any(ch in a.insts[i]['name'] for ch in '[_.')]      # prefer names with something to normalise
+        i = rng.choice(special if special and rng.random() < 0.7 else cand)
+        real = {x['name'] for x in a.insts}
+        names = [x for x in near_miss_names(a.insts[i]['name']) if x not in real]
+        if names and rng.random() < 0.6:
+            names = names[:1]           # the bracket / underscore twin (or the first applicable step)
+        if names:
+            ghost = [('IOPATH', None) + e[2:5] + ([['7', '7.5', '8'], ['9', '9.5', '10']][:len(e[5])],) for e in per_inst[i]]
+            inst_blocks.insert(rng.randint(0, len(inst_blocks)), [(sdf_name(rng, rng.choice(names), rng.choice(['esc', 'raw'])), ghost)])
     if rng.random() < 0.2:
         inst_blocks.append([('ghost_42', [('IOPATH', None, 'A', None, 'Z', [['1', '1', '1']])])])
     k = 1 if not rep or rng.random() < 0.5 or len(ics) < 2 else min(len(ics), rng.choice([2, 2, 3]))
